@@ -97,6 +97,23 @@ def _fn_sir2():
     return {"coq": text, "translated": done, "refused": failed}
 
 
+@unit("fn_files")
+def _fn_files():
+    """FileAnonymizer.anonymize_io: the loop over the lines and the order of the five stages.  The secrets stage is the generated replace_matching_item;
+    the other stages (functions with regex callbacks) are uninterpreted and answer (line, updated object); file objects are lists of strings"""
+    import os
+
+    sys.path.insert(0, os.path.dirname(os.path.abspath(__file__)))
+    import translate
+    import netconan.anonymize_files as pm
+    import netconan.sensitive_item_removal as sir
+
+    text, done, failed = translate.translate_module(
+        pm.__file__, pm, wanted=["anonymize_io"], xfuncs={"replace_matching_item": (sir, "G_fn_sir2")},
+        thread_oracles={"anonymize_ip_addr": 0, "anonymize_as_numbers": 0}, method_thread_oracles=("anonymize",), io_lists=True)
+    return {"coq": text, "translated": done, "refused": failed}
+
+
 @unit("fn_cli")
 def _fn_cli():
     import os
